@@ -103,6 +103,56 @@ def gen_cancel_repay(rnd):
             "bars": bars, "script": script, "subscribe_first": False, "profile": "cancelrepay", "ample": False}
 
 
+def gen_unpriceable(rnd):
+    """An open loan whose interest is charged in a symbol that no pair prices (it could be created because its interest
+    was zero at that moment), next to ordinary loans: an auto-repay order that closes by a complete fill with part of
+    its reservation unspent, explicit repayments of the priceable loans, cancellations."""
+    bp, qp = 2, 2
+    px = rnd.choice([100, 50, 20])
+    n = rnd.randint(5, 8)
+    bars = [[0, 60 * (k + 1), dec(px, qp), dec(px, qp), dec(px, qp), dec(px, qp), "1000"] for k in range(n)]
+    conds = {"USD": ["USD", rnd.choice(["0", "5"]), 1024, "0", "0"], "BTC": ["ETH", "10", 4096, "0", "0"]}
+    acts0 = [["loan", "USD", dec(rnd.choice([50, 100]), qp)], ["loan", "BTC", dec(1, bp)]]
+    if rnd.random() < 0.5:
+        acts0.append(["loan", "USD", dec(25, qp)])
+    op = rnd.choice(["buy", "buy", "sell"])
+    kind = rnd.choice(["limit", "market", "limit"])
+    # a limit above (buy) / below (sell) the market: it fills at the open and leaves part of its reservation unspent
+    limit = dec(px + rnd.choice([5, 10]) if op == "buy" else max(1, px - 5), qp) if kind == "limit" else None
+    order = ["create", kind, op, 0, dec(rnd.choice([1, 2]), bp), limit, None, False, True]
+    script = {"0": acts0, "1": [order], "3": [["repay", 0]], str(n - 1): [["cancel", 0], ["list", None]]}
+    if rnd.random() < 0.5:
+        script["2"] = [["create", "limit", "buy", 0, dec(1, bp), dec(max(1, px - 10), qp), None, False, False]]
+    return {"syms": ["BTC", "USD", "ETH"], "pairs": [["BTC", "USD"]], "sym_prec": {"BTC": bp, "USD": qp, "ETH": 4},
+            "pair_info": {}, "default_pair": None, "fee": rnd.choice([None, ["0.1", "0"], ["0.25", "0.5"]]), "liq": None,
+            "lend": {"quote": "USD", "default": None, "conds": conds},
+            "initial": {"BTC": dec(rnd.choice([1, 10]), bp), "USD": dec(rnd.choice([1000, 10000]), qp)},
+            "bars": bars, "script": script, "subscribe_first": False, "profile": "unpriceable", "ample": False,
+            "debug_log": True}
+
+
+def gen_thousand(rnd):
+    """More than a thousand account updates: a short position (the borrowed coins were sold: zero balance, outstanding debt)
+    held while a resting bid is re-quoted on every bar (one reservation and one release per bar)."""
+    n = rnd.randint(510, 540)
+    px = rnd.choice([100, 40])
+    bars = [[0, 60 * (k + 1), dec(px, 2), dec(px, 2), dec(px, 2), dec(px, 2), "1000"] for k in range(n)]
+    script = {"0": [["loan", "BTC", "1.00"], ["create", "market", "sell", 0, "1.00", None, None, False, False]]}
+    oid = 1
+    for k in range(2, n):
+        acts = []
+        if k > 2:
+            acts.append(["cancel", oid - 1])
+        acts.append(["create", "limit", "buy", 0, "0.01", dec(px // 2, 2), None, False, False])
+        oid += 1
+        script[str(k)] = acts
+    return {"syms": ["BTC", "USD"], "pairs": [["BTC", "USD"]], "sym_prec": {"BTC": 2, "USD": 2}, "pair_info": {},
+            "default_pair": None, "fee": rnd.choice([None, ["0.1", "0"]]), "liq": None,
+            "lend": {"quote": "USD", "default": None, "conds": {"BTC": ["BTC", "0", 0, "0", "0.5"]}},
+            "initial": {"BTC": "0.00", "USD": "1000.00"}, "bars": bars, "script": script, "subscribe_first": False,
+            "profile": "thousand", "ample": False}
+
+
 def gen_reindex_fail(rnd):
     """Bar processing that raises (an auto-repay order closes while the interest of an open loan cannot be priced)
     around the 50th traversal of the open-order list, with other open orders behind the failing one."""
@@ -204,6 +254,18 @@ def gen_case(rnd, profile="mixed", size="small"):
         return gen_near_equal_loans(rnd, equal=True)
     if profile == "reindexfail":
         return gen_reindex_fail(rnd)
+    if profile == "unpriceable":
+        return gen_unpriceable(rnd)
+    if profile == "thousand":
+        return gen_thousand(rnd)
+    if profile == "neginit":
+        # an account opened short: a negative initial balance (booked as borrowed, with no loan object behind it)
+        case = gen_case(rnd, "margin", size)
+        s = "BTC" if len(case["bars"]) % 2 else "USD"
+        p = case["sym_prec"].get(s, 2)
+        case["initial"][s] = "-" + dec(F(1, 2) if s == "BTC" else 100, p)
+        case["profile"] = "neginit"
+        return case
     if profile == "cancelrepay":
         return gen_cancel_repay(rnd)
     if profile == "minfee":
@@ -212,6 +274,10 @@ def gen_case(rnd, profile="mixed", size="small"):
         return gen_repay_boundary(rnd)
     if profile == "reconfig":
         return gen_reconfig(rnd)
+    if profile == "marginedge":
+        return gen_margin_edge(rnd)
+    if profile == "adaptive":
+        return gen_adaptive(rnd)
     if profile == "boundary":
         return gen_boundary(rnd)
     if profile == "dust":
@@ -247,6 +313,9 @@ def gen_case(rnd, profile="mixed", size="small"):
             sym_prec["ltc"] = sym_prec.pop("DOT")
     if profile == "noprec" and rnd.random() < 0.5:
         sym_prec.pop(rnd.choice(list(sym_prec)))
+    if profile == "noprice":
+        # a symbol that is held and may be named by lending conditions but is not traded: no pair, no precision, no price
+        syms.append("BNB")
     pair_info = {}
     if rnd.random() < 0.25:
         i = rnd.randrange(len(pairs))
@@ -356,6 +425,9 @@ def gen_case(rnd, profile="mixed", size="small"):
     cur = dict(ref)
     for k in range(nb):
         t = 60 * (k + 1)
+        if profile == "loans" and nb % 2 == 0:
+            # bars (and with them loans, repayments and interest) at instants that are not whole seconds
+            t = t + [0, 0.5, 0.25, 0.75][(k * 7 + nb) % 4]
         for pi in range(len(pairs)):
             if k > 0 and rnd.random() < (0.15 if profile != "multipair" else 0.05):
                 continue                              # this pair has no bar at this time
@@ -456,6 +528,15 @@ def gen_case(rnd, profile="mixed", size="small"):
                 acts.append(["list", rnd.choice([None, None, rnd.randrange(len(pairs))])])
         if acts:
             script[str(i)] = acts
+    if profile == "margin" and lend is not None and len(bars) >= 4:
+        # the margin requirement of a symbol is changed in the middle of the run (its conditions object is mutable)
+        i = len(bars) // 2
+        target = sorted(lend["conds"])[0] if lend["conds"] else None
+        if target is None and lend["default"] is not None:
+            target = syms[len(bars) % len(syms)]
+        if target is not None:
+            new_req = ["0.5", "1", "0.1", "0", "2", "0.25"][(len(bars) * 5 + n_orders) % 6]
+            script.setdefault(str(i), []).insert(0, ["recond", target, new_req])
     return {"syms": syms, "pairs": pairs, "sym_prec": sym_prec, "pair_info": pair_info, "default_pair": default_pair,
             "fee": fee, "liq": liq, "lend": lend, "initial": initial, "bars": bars, "script": script,
             "subscribe_first": True if wide else rnd.random() < 0.3, "profile": "wide" if wide else profile,
@@ -468,6 +549,67 @@ def gen_case(rnd, profile="mixed", size="small"):
             # pairs that have a second, passive subscriber besides the strategy's handler
             "extra_subs": ([i for i in range(len(pairs)) if rnd.random() < 0.4]
                            if (profile == "multipair" and len(pairs) > 1) else [])}
+
+
+def gen_adaptive(rnd):
+    """A strategy whose requests depend on what it reads back: orders sized from get_balances() at the same instant on
+    two or three pairs (handlers of one dispatch pass), fills re-invested from the order-event handler (two fills of one
+    bar time are two events of one source), the order events subscribed before or after the bar feeds."""
+    npairs = rnd.choice([2, 3, 3])
+    names = ["AAA", "BBB", "CCC"][:npairs]
+    pairs = [[n, "USD"] for n in names]
+    sym_prec = {n: rnd.choice([0, 2, 3]) for n in names}
+    sym_prec["USD"] = 2
+    px = {n: rnd.choice([10, 20, 25, 40]) for n in names}
+    nt = rnd.randint(5, 8)
+    bars = []
+    for k in range(nt):
+        for pi, n in enumerate(names):
+            p = px[n] + rnd.choice([0, 0, 1, -1])
+            bars.append([pi, 60 * (k + 1), dec(p, 2), dec(p + 1, 2), dec(p - 1, 2), dec(p, 2), "100000"])
+    script = {}
+    for k in range(nt - 1):
+        if k % 2 == 0 or rnd.random() < 0.4:
+            chosen = rnd.sample(range(npairs), rnd.choice([2, npairs]))
+            for pi in chosen:
+                frac = rnd.choice([(1, 2), (1, 2), (1, 3), (3, 4), (1, 1)])
+                script.setdefault(str(k * npairs + pi), []).append(
+                    ["spend", pi, frac[0], frac[1], dec(px[names[pi]] + rnd.choice([2, 5]), 2)])
+        elif rnd.random() < 0.5:
+            pi = rnd.randrange(npairs)
+            script.setdefault(str(k * npairs + pi), []).append(
+                ["create", "market", "sell", pi, dec(rnd.choice([1, 5, 10]), sym_prec[names[pi]]), None, None, False, False])
+    on_fill = []
+    for _ in range(rnd.randint(2, 5)):
+        pi = rnd.randrange(npairs)
+        frac = rnd.choice([(1, 2), (1, 3), (1, 1)])
+        on_fill.append(["spend", pi, frac[0], frac[1], dec(px[names[pi]] + rnd.choice([2, 5]), 2)])
+    initial = {n: dec(rnd.choice([0, 20, 100]), sym_prec[n]) for n in names}
+    initial["USD"] = dec(rnd.choice([100000, 50000, 9999]), 2)
+    return {"syms": names + ["USD"], "pairs": pairs, "sym_prec": sym_prec, "pair_info": {}, "default_pair": None,
+            "fee": rnd.choice([None, None, ["0.1", "0"]]), "liq": None, "lend": None, "initial": initial, "bars": bars,
+            "script": script, "on_fill": on_fill, "order_events_first": rnd.random() < 0.6,
+            "subscribe_first": rnd.random() < 0.3, "profile": "adaptive", "ample": False, "handler_pairs": None,
+            "merged_source": False, "extra_subs": []}
+
+
+def gen_margin_edge(rnd):
+    """Loans requested exactly at the margin limit and one precision unit beyond it, on accounts of every size (the unit
+    is a relative 1e-11 of a large account): equity E, requirement r, nothing borrowed yet -> at most E / r can be borrowed."""
+    r_txt = rnd.choice(["0.2", "0.5", "0.25", "0.1"])
+    r = F(Decimal(r_txt))
+    equity = rnd.choice([F(100000000), F(1000000000), F(12345678912, 100), F(1000), F(250000000000), F(5, 100)])
+    limit = equity / r
+    unit = F(1, 100)
+    over = rnd.choice([0, 1, 1, 1, 2, -1])
+    amount = limit + over * unit
+    bars = [[0, 60 * (k + 1), "100.00", "100.00", "100.00", "100.00", "10"] for k in range(3)]
+    script = {"0": [["loan", "USD", dec(amount, 2)]], "1": [["loan", "USD", dec(unit, 2)], ["repay", 0]]}
+    return {"syms": ["BTC", "USD"], "pairs": [["BTC", "USD"]], "sym_prec": {"BTC": 8, "USD": 2}, "pair_info": {},
+            "default_pair": None, "fee": None, "liq": None,
+            "lend": {"quote": "USD", "default": None, "conds": {"USD": ["USD", "0", 0, "0", r_txt]}},
+            "initial": {"BTC": "0.00000000", "USD": dec(equity, 2)}, "bars": bars, "script": script,
+            "subscribe_first": False, "profile": "marginedge", "ample": False}
 
 
 def gen_reconfig(rnd):
